@@ -402,8 +402,10 @@ Step1(y, e) ==
                      ELSE IF z.h = y.h THEN e.r \in z.cn.tracked /\ e.src \in CN!ByFor(VS(z, TOf(e.k), e.r), e.v)
                      ELSE z.cn.lastCommit.r = e.r /\ e.k = "precommit" /\ z.cn.lastCommit.votes[e.src] = e.v
       newVote == isVote /\ ~recorded(y) /\ recorded(y2)
-      polka == /\ e.op = "vote" /\ e.k = "prevote" /\ y2.h = y.h /\ e.r = RoundOf(y) /\ RoundOf(y2) = e.r
-               /\ y.cn.pv[e.r].maj = None /\ y2.cn.pv[e.r].maj \notin {None, Nil} /\ y.cn.validR < e.r
+      \* cs.addVote, prevote branch: EVERY added prevote of the current round re-fires EventValidBlock while a polka for a
+      \* block exists and ValidRound is still behind (it stays behind as long as the block itself is missing)
+      polka == /\ e.op = "vote" /\ e.k = "prevote" /\ newVote /\ y2.h = y.h /\ e.r = RoundOf(y)
+               /\ y2.cn.pv[e.r].maj \notin {None, Nil} /\ y.cn.validR < e.r
       commitHdr == y2.h = y.h /\ StepOf(y2) = StCommit /\ StepOf(y) # StCommit /\ HdrOf(y2) # HdrOf(y)
   IN [x |-> y2,
       ann |->    (IF newVote THEN <<MHasVote(vh, e.r, TOf(e.k), Idx(e.src))>> ELSE << >>)
